@@ -199,7 +199,9 @@ class SpecInfo:
 # --------------------------------------------------------------------------------------------
 
 ALPHA_FULL = list("abcXYZ 019!?,.~~\xff\xffy") + ["€", "é", "Δ", "λ", "Ж", "\U0001F600", "Ÿ", "\x00", '"', "\\"]
-ALPHA_LOSSLESS = list("abcdefXYZ 0189!?,.-_y'\"#") + ["€", "é", "ß", "Ÿ", "\xa0", "\xfe"]
+# every printable ASCII character except '~' (not invertible inside encoded strings), DEL, and a few windows-1252 ones; the
+# split points of the EO string transform (0x21/0x22, 0x4F/0x50, 0x7D) are in it
+ALPHA_LOSSLESS = [chr(c) for c in range(0x20, 0x7E)] + ["\x7f", "€", "é", "ß", "Ÿ", "\xa0", "\xfe"] + list("P}P}!\"O")
 
 
 @dataclass
